@@ -1,5 +1,7 @@
 import CanvasModel.Driver
 import CanvasModel.C15
+import CanvasModel.C15Heap
+import CanvasModel.C15Verdict
 import CanvasGen.CoreF
 open Canvas Canvas.C15
 
@@ -118,6 +120,12 @@ partial def parse : List String → Option (List Cmd)
   | "DP" :: x :: y :: n :: ts => do
     let (ps, rest) ← pathRefs? (← nat? n) ts
     pure (.op (.drawPath (← fl? x) (← fl? y) ps) :: (← parse rest))
+  | "FL" :: id :: len :: x0 :: y0 :: x1 :: y1 :: ts => do
+    pure (.op (.fill ⟨← nat? id, ← fl? len, ← rct? [x0, y0, x1, y1]⟩) :: (← parse ts))
+  | "SK" :: id :: len :: x0 :: y0 :: x1 :: y1 :: ts => do
+    pure (.op (.stroke ⟨← nat? id, ← fl? len, ← rct? [x0, y0, x1, y1]⟩) :: (← parse ts))
+  | "FS" :: id :: len :: x0 :: y0 :: x1 :: y1 :: ts => do
+    pure (.op (.fillStroke ⟨← nat? id, ← fl? len, ← rct? [x0, y0, x1, y1]⟩) :: (← parse ts))
   | "DT" :: x :: y :: id :: e :: x0 :: y0 :: x1 :: y1 :: ts => do
     pure (.op (.drawText (← fl? x) (← fl? y) ⟨← nat? id, e == "1", ← rct? [x0, y0, x1, y1]⟩) :: (← parse ts))
   | "DI" :: x :: y :: w :: h :: res :: ts => do
@@ -128,6 +136,7 @@ partial def parse : List String → Option (List Cmd)
   | "CC" :: x0 :: y0 :: x1 :: y1 :: ts => do pure (.op (.cvClip (← rct? [x0, y0, x1, y1])) :: (← parse ts))
   | "CF" :: m :: ts => do pure (.op (.cvFit (← fl? m)) :: (← parse ts))
   | "CX" :: ts => do pure (.op .cvReset :: (← parse ts))
+  | "CN" :: a :: b :: c :: d :: e :: f :: ts => do pure (.op (.cvNest (← mat? [a, b, c, d, e, f])) :: (← parse ts))
   | _ => none
 
 def showMat (m : Mat Float) : List String := [m.a, m.b, m.c, m.d, m.e, m.f].map hexOfFloat
@@ -152,7 +161,61 @@ def exec (view : Mat Float) : List Cmd → Ctx Float → List String → List St
       ++ showStyle c.st.style)
   | .op o :: rest, c, out => exec view rest (step opsF o c) out
 
+/-! aliasing probes: the heap model of `Style.Dashes` (CanvasModel/C15Heap.lean) -/
+
+inductive HCmd
+  | op (o : Heap.Op Float)
+  | obs
+
+partial def parseH : List String → Option (List HCmd)
+  | [] => some []
+  | "OB" :: ts => do pure (.obs :: (← parseH ts))
+  | "AL" :: n :: ts => do
+    let n ← nat? n
+    if ts.length < n then none else
+    pure (.op (.callerAlloc (← floats? (ts.take n))) :: (← parseH (ts.drop n)))
+  | "W" :: arr :: i :: v :: ts => do pure (.op (.callerWrite (← nat? arr) (← nat? i) (← fl? v)) :: (← parseH ts))
+  | "SD" :: off :: arr :: lo :: len :: ts => do
+    pure (.op (.setDashes (← fl? off) ⟨← nat? arr, ← nat? lo, ← nat? len⟩) :: (← parseH ts))
+  | "PU" :: ts => do pure (.op .push :: (← parseH ts))
+  | "PO" :: ts => do pure (.op .pop :: (← parseH ts))
+  | "RS" :: ts => do pure (.op .resetStyle :: (← parseH ts))
+  | "DP" :: len :: ts => do pure (.op (.drawPath (← fl? len)) :: (← parseH ts))
+  | _ => none
+
+def showObs (s : Heap.State Float) : List String :=
+  let ob := Heap.observe s
+  ["O", toString ob.1.length] ++ ob.1.map hexOfFloat ++ ["L", toString ob.2.length] ++
+    ob.2.flatMap (fun l => [toString l.1.length] ++ l.1.map hexOfFloat ++ [if l.2 then "1" else "0"])
+
+def execH : List HCmd → Heap.State Float → List String → List String
+  | [], _, out => out
+  | .obs :: rest, s, out => execH rest s (out ++ showObs s)
+  | .op o :: rest, s, out => execH rest (Heap.step 0.0 (checkDashImpl arithF fmodF) o s) out
+
+def pairs? : Nat → List String → Option (List (Int × Nat) × List String)
+  | 0, ts => some ([], ts)
+  | n + 1, z :: fp :: ts => do
+    let (ps, rest) ← pairs? n ts
+    pure ((← parseInt? z, ← nat? fp) :: ps, rest)
+  | _, _ => none
+
+def nats? : List String → Option (List Nat)
+  | [] => some []
+  | t :: ts => do pure ((← nat? t) :: (← nats? ts))
+
 def handle : List String → Option String
+  | "V" :: n :: ts => do
+    let (recorded, rest) ← pairs? (← nat? n) ts
+    match rest with
+    | m :: fps =>
+      let replayed ← nats? fps
+      if replayed.length ≠ (← nat? m) then none else
+      pure (replayVerdict recorded replayed).show
+    | [] => none
+  | "A" :: ts => do
+    let cmds ← parseH ts
+    pure (String.intercalate " " (execH cmds (Heap.init 0.0) []))
   | "H" :: w :: h :: a :: b :: c :: d :: e :: f :: ts => do
     let view ← mat? [a, b, c, d, e, f]
     let cmds ← parse ts
